@@ -279,11 +279,15 @@ func c15Run(r *ev.Run) {
 		shapes = []shape{
 			{3, 3, 1, []uint16{lo, lo + 1, mid, hi}, 6},
 			{5, 5, 2, []uint16{lo, lo + 1, mid, hi}, 5},
-			{4, 3, 1, []uint16{lo, lo + 1, mid, hi}, 4},
-			{6, 5, 2, []uint16{lo, mid, hi}, 4},
-			{3, 4, 1, []uint16{lo, lo + 1, mid, hi}, 4},
-			{4, 4, 1, []uint16{lo, mid, hi}, 3},
-			{2, 2, 0, []uint16{lo, mid, hi}, 3},
+			{4, 3, 1, []uint16{lo, mid, hi}, 4},
+			{4, 3, 1, []uint16{lo, lo + 1, mid, hi}, 3},
+			{6, 5, 2, []uint16{lo, mid, hi}, 3},
+			{3, 4, 1, []uint16{lo, mid, hi}, 4},
+			{3, 4, 1, []uint16{lo, lo + 1, mid, hi}, 3},
+			{4, 4, 1, []uint16{lo, hi}, 3},
+			{4, 4, 1, []uint16{lo, mid, hi}, 2},
+			{2, 2, 0, []uint16{lo, hi}, 3},
+			{2, 2, 0, []uint16{lo, mid, hi}, 2},
 		}
 	}
 	r.Rule = "real detector with dynamic threshold: every stream of the stated length over per-pixel alphabets {lo, lo+1, mid, hi} (scene mean below, inside, above [temp-thresh-min,max] = [1200,1400]) for interiors of 1, 2 and 4 pixels in one or two rows (edge-pixels 0,1,2), with at most one FFC period of any length and at most one camera reset at any position; (min,max) in {unset,set}^2 plus min==max (threshold pinned inside / at the bottom of the scene range); preview frames 0,1,2. Oracle after every frame (deep layer) and at every sink StartRecording (API level, processor with min=max=0 so every motion frame starts a recording): background <= frame on the interior, border replicates nearest interior pixel, re-seeded after FFC/reset, threshold either unchanged or the bounded mean (+-1 float truncation), stored background/threshold = the ones in force (also when a camera reset arrives during a recording whose StopRecording reports an error). Second stage (slowly accumulating state): macro events 'hold the interior values for k frames' (k in {1,12,25}) over values 1 and 2 counts apart, 2-3 blocks, so that the weight-based acceptance of warmer pixels is reached. Non-trivial = stream in which the threshold was recomputed."
